@@ -985,3 +985,81 @@ pub fn check_spline_option_histories(max_len: usize, keep: &dyn Fn(u8, bool) -> 
         }
     }
 }
+
+
+// ---------------------------------------------------------------------------------------
+// knots on "round" positions, queries one ulp around them, batches at least as long as the axis
+
+/// For every axis of three families of non-dyadic "round" knots (subsets of k/10, k/3, 7k/10 with
+/// 4..6 knots) and a symmetric dyadic family: all knots, their two neighbouring floats and the interval
+/// midpoints are answered (1) one by one on a fresh interpolator, (2) as one static rank-1 batch,
+/// (3) as a dynamic rank-1 batch, (4) one by one again on the interpolator that has just served the
+/// batches, (5) one by one on another fresh interpolator. All five must agree bit for bit
+/// (Linear and CubicSpline).
+pub fn edge_knot_batches(out: &mut crate::driver::JobOut, family: usize) {
+    use crate::json::Json;
+    let base: Vec<f64> = match family {
+        0 => (0..10).map(|k| k as f64 * 0.1).collect(),
+        1 => (0..10).map(|k| k as f64 / 3.0).collect(),
+        2 => (0..10).map(|k| k as f64 * 0.7).collect(),
+        _ => vec![-4.0, -2.0, -1.0, -0.5, 0.0, 0.5, 1.0, 2.0, 4.0, 8.0],
+    };
+    let m = base.len();
+    for mask in 0u32..(1 << m) {
+        let n = mask.count_ones() as usize;
+        if !(4..=6).contains(&n) {
+            continue;
+        }
+        let x: Vec<f64> = (0..m).filter(|i| mask >> i & 1 == 1).map(|i| base[i]).collect();
+        // (family 3: data |x| and a generic lane; the others: generic)
+        let data = Array2::from_shape_fn((n, 2), |(i, j)| if j == 0 { x[i].abs() } else { ((i * 5 + 1) as f64 * 0.37).sin() * 2.0 + 0.3 * i as f64 });
+        let mut q: Vec<f64> = vec![];
+        for (i, &k) in x.iter().enumerate() {
+            q.push(k);
+            if i > 0 {
+                q.push(k.next_down());
+            }
+            if i + 1 < n {
+                q.push(k.next_up());
+                q.push(k + (x[i + 1] - k) * 0.5);
+            }
+        }
+        let qa = ndarray::Array1::from(q.clone());
+        let qd = ArrayD::from_shape_vec(IxDyn(&[q.len()]), q.clone()).unwrap();
+        macro_rules! run {
+            ($name:expr, $strat:expr) => {{
+                let mk = || Interp1DBuilder::new(data.clone()).x(ax1(&x)).strategy($strat).build().expect("valid axis");
+                macro_rules! singles {
+                    ($ip:expr) => {
+                        q.iter().flat_map(|&v| $ip.interp(v).expect("in range").iter().map(|t: &f64| t.to_bits()).collect::<Vec<u64>>()).collect::<Vec<u64>>()
+                    };
+                }
+                let ip = mk();
+                let s1 = singles!(ip);
+                let b1: Vec<u64> = ip.interp_array(&qa).expect("in range").iter().map(|t| t.to_bits()).collect();
+                let b2: Vec<u64> = ip.interp_array(&qd).expect("in range").iter().map(|t| t.to_bits()).collect();
+                let s2 = singles!(ip);
+                let fresh = mk();
+                let s3 = singles!(fresh);
+                out.evals += 5;
+                out.nontrivial += 5;
+                out.transitions += 5 * q.len() as u64;
+                out.states += 2;
+                let all_same = s1 == b1 && s1 == b2 && s1 == s2 && s1 == s3;
+                out.outcome(if all_same { "edge-knots:all five agree" } else { "edge-knots:differ" });
+                if !all_same {
+                    let which = if s1 != b1 { "the static rank-1 batch" } else if s1 != b2 { "the dynamic rank-1 batch" } else if s1 != s2 { "single queries after the batches (same interpolator)" } else { "single queries on a second fresh interpolator" };
+                    let other = if s1 != b1 { &b1 } else if s1 != b2 { &b2 } else if s1 != s2 { &s2 } else { &s3 };
+                    let k = s1.iter().zip(other.iter()).position(|(a, b)| a != b).unwrap_or(0);
+                    out.violate(
+                        format!("edge-knots:{}:family{family}:{mask:#x}", $name),
+                        format!("{} over x = {x:?}: {which} differ(s) from single queries on a fresh interpolator at query {} (lane {}): {:e} vs {:e}", $name, q[k / 2], k % 2, f64::from_bits(other[k]), f64::from_bits(s1[k])),
+                        Json::obj(vec![("x", Json::f64s(&x)), ("query", Json::Num(q[k / 2]))]),
+                    );
+                }
+            }};
+        }
+        run!("Linear", Linear::new());
+        run!("CubicSpline", CubicSpline::new());
+    }
+}
